@@ -153,17 +153,18 @@ Theorem CAES_encrypt_null : forall E nea1 nea3 k c b d p, b <= 31 -> d <= 1 ->
 Proof. exact encrypt_null. Qed.
 
 (* length, involution, prefix stability, keystream independence through the wrapper, for
-   algorithms 0..3 (Section-closed: the interface of NEA1/NEA3 is a premise) *)
+   algorithms 0..3 (Section-closed: the interface of NEA1/NEA3 on the length domain [dom] is a premise) *)
 Theorem CAES_encrypt_laws : forall E nea1 nea3, E_wf E ->
-  forall ks1 ks3, stream_iface nea1 ks1 -> stream_iface nea3 ks3 ->
-  forall alg k c b d p,
-  alg <= 3 -> valid_args k c b d -> bytes_ok p -> len32_ok (length p) ->
+  forall dom, len_dom dom ->
+  forall ks1 ks3, stream_iface nea1 ks1 dom -> stream_iface nea3 ks3 dom ->
+  forall alg k c b d (p : bytes),
+  alg <= 3 -> valid_args k c b d -> dom (length p) ->
   exists ct,
     NASEncrypt E nea1 nea3 alg k c b d (Some p) = (Ok tt, Some ct) /\
-    length ct = length p /\ bytes_ok ct /\
+    length ct = length p /\
     NASEncrypt E nea1 nea3 alg k c b d (Some ct) = (Ok tt, Some p) /\
     (forall n, NASEncrypt E nea1 nea3 alg k c b d (Some (firstn n p)) = (Ok tt, Some (firstn n ct))) /\
-    (forall q cq, bytes_ok q -> length q = length p ->
+    (forall (q cq : bytes), length q = length p ->
        NASEncrypt E nea1 nea3 alg k c b d (Some q) = (Ok tt, Some cq) -> xorb ct p = xorb cq q).
 Proof. exact encrypt_laws. Qed.
 
@@ -186,52 +187,52 @@ Theorem CAES_mac_null : forall E nia1 nia3 k c b d m, b <= 31 -> d <= 1 ->
 Proof. exact mac_null. Qed.
 
 (* every call returns an error or exactly 4 octets: all algorithm identities, bearers, directions *)
-Theorem CAES_mac_len4 : forall E nia1 nia3, E_wf E -> mac_iface nia1 64 -> mac_iface nia3 32 ->
-  forall alg k c b d msg, block_ok k -> c < 2 ^ 32 -> payload_ok msg ->
+Theorem CAES_mac_len4 : forall E nia1 nia3, E_wf E ->
+  forall dom, len_dom dom -> mac_iface nia1 dom -> mac_iface nia3 dom ->
+  forall alg k c b d msg, block_ok k -> c < 2 ^ 32 -> payload_ok dom msg ->
   NASMacCalculate E nia1 nia3 alg k c b d msg = Err \/
   exists m, NASMacCalculate E nia1 nia3 alg k c b d msg = Ok m /\ length m = 4%nat.
 Proof. exact mac_len4. Qed.
 
 (* no panic for any algorithm identity, bearer, direction, payload (nil, empty, any length) *)
 Theorem CAES_total : forall E nea1 nea3 nia1 nia3, E_wf E ->
-  forall ks1 ks3, stream_iface nea1 ks1 -> stream_iface nea3 ks3 ->
-  mac_iface nia1 64 -> mac_iface nia3 32 ->
-  forall alg k c b d payload, block_ok k -> c < 2 ^ 32 -> payload_ok payload ->
+  forall dom, len_dom dom ->
+  forall ks1 ks3, stream_iface nea1 ks1 dom -> stream_iface nea3 ks3 dom ->
+  mac_iface nia1 dom -> mac_iface nia3 dom ->
+  forall alg k c b d payload, block_ok k -> c < 2 ^ 32 -> payload_ok dom payload ->
   is_total (fst (NASEncrypt E nea1 nea3 alg k c b d payload)) /\
   is_total (NASMacCalculate E nia1 nia3 alg k c b d payload).
 Proof.
-  intros E nea1 nea3 nia1 nia3 W ks1 ks3 I1 I3 M1 M3 alg k c b d p K C P.
-  exact (conj (enc_total E nea1 nea3 W ks1 ks3 I1 I3 alg k c b d p K C P)
-              (mac_total E nia1 nia3 W M1 M3 alg k c b d p K C P)).
+  intros E nea1 nea3 nia1 nia3 W dom D ks1 ks3 I1 I3 M1 M3 alg k c b d p K C P.
+  exact (conj (enc_total E nea1 nea3 W dom D ks1 ks3 I1 I3 alg k c b d p K C P)
+              (mac_total E nia1 nia3 W dom D M1 M3 alg k c b d p K C P)).
 Qed.
 
 (* the interface premise follows from the laws the SNOW 3G / ZUC parts prove about NEA1 / NEA3:
    totality with length, keystream independence, prefix stability (on whole octets);
    the keystream is the output on zero octets *)
-Theorem CAES_iface_from_laws : forall nea,
-  (forall k c b d p, valid_args k c b d -> bytes_ok p -> len32_ok (length p) ->
-     exists o, nea k c b d p (8 * N.of_nat (length p)) = Ok o /\ length o = length p /\ bytes_ok o) ->
-  (forall k c b d p q o o', valid_args k c b d ->
-     bytes_ok p -> bytes_ok q -> len32_ok (length p) -> length p = length q ->
+Theorem CAES_iface_from_laws : forall nea (dom : nat -> Prop),
+  (forall k c b d p, valid_args k c b d -> dom (length p) ->
+     exists o, nea k c b d p (8 * N.of_nat (length p)) = Ok o /\ length o = length p) ->
+  (forall k c b d p q o o', valid_args k c b d -> dom (length p) -> length p = length q ->
      nea k c b d p (8 * N.of_nat (length p)) = Ok o ->
      nea k c b d q (8 * N.of_nat (length q)) = Ok o' -> xorb o p = xorb o' q) ->
-  (forall k c b d p o n, valid_args k c b d ->
-     bytes_ok p -> len32_ok (length p) -> (n <= length p)%nat ->
+  (forall k c b d p o n, valid_args k c b d -> dom (length p) -> (n <= length p)%nat ->
      nea k c b d p (8 * N.of_nat (length p)) = Ok o ->
      nea k c b d (firstn n p) (8 * N.of_nat (length (firstn n p))) = Ok (firstn n o)) ->
-  stream_iface nea (ks_of_zeros nea).
+  stream_iface nea (ks_of_zeros nea) dom.
 Proof. exact stream_iface_of_laws. Qed.
 
 (* ---- non-vacuity ---- *)
 
 (* the interface premises are satisfiable (by NEA2 / NIA2 themselves, with AES) *)
 Example CAES_iface_inhabited :
-  stream_iface (fun k c b d p _ => NEA2 aes128 k c b d p) (nea2_ks aes128) /\
-  mac_iface (fun k c b d m _ => NIA2 aes128 k c b d m) 64 /\
-  mac_iface (fun k c b d m _ => NIA2 aes128 k c b d m) 32.
+  len_dom len32_ok /\
+  stream_iface (fun k c b d p _ => NEA2 aes128 k c b d p) (nea2_ks aes128) len32_ok /\
+  mac_iface (fun k c b d m _ => NIA2 aes128 k c b d m) len32_ok.
 Proof.
-  exact (conj (nea2_stream_iface aes128 aes128_wf)
-        (conj (nia2_mac_iface aes128 aes128_wf 64) (nia2_mac_iface aes128 aes128_wf 32))).
+  exact (conj len32_dom (conj (nea2_stream_iface aes128 aes128_wf len32_ok)
+                              (nia2_mac_iface aes128 aes128_wf len32_ok))).
 Qed.
 
 Definition ex_key : bytes := [211;197;213;146;50;127;177;28;64;53;198;104;10;248;198;209].
